@@ -183,7 +183,8 @@ def main(prop, tier, seed, replay_path):
             compared += 1
             n = numbers[i]
             parts = line.split("\t")
-            msg = parts[2] if len(parts) > 2 else line
+            # index, number, hash of the full Debug rendering, its first 240 characters, re-encoding
+            msg = parts[3] if len(parts) > 3 else line
             if n is None:
                 exp = "Empty"
                 okk = msg == exp
@@ -191,7 +192,7 @@ def main(prop, tier, seed, replay_path):
                 n_sel += 1
                 nontrivial.add((name, i))
                 fparts = fullout[i].split("\t")
-                exp = fparts[2]
+                exp = fparts[3] if len(fparts) > 3 else fullout[i]
                 okk = parts[1:] == fparts[1:]
             else:
                 exp = "MsgNotSupported(MsgNotSupportedT { message_number: %d })" % n
